@@ -59,6 +59,8 @@ type progIn struct {
 	Snap   bool       `json:"snap,omitempty"`
 	// load-only mode (C08): the source is given as base64 (arbitrary bytes), loaded twice, never run
 	LoadB64 string `json:"loadb64,omitempty"`
+	// per-case wall-clock deadline of the parent (0: the command-line default)
+	DeadlineMs int `json:"deadline_ms,omitempty"`
 }
 
 type progOut struct {
@@ -592,6 +594,18 @@ func registerHostFunctions(L *lua.LState, res *progOut, tk *tokenizer, ctx *detC
 // ---- child: one JSON program per line in, one JSON result per line out ------------
 
 func luaRunChild(args []string) int {
+	// an input that makes the interpreter allocate without end must not take the machine down: the child gives up
+	// (the parent records the case as 'crash')
+	go func() {
+		var ms runtime.MemStats
+		for {
+			time.Sleep(200 * time.Millisecond)
+			runtime.ReadMemStats(&ms)
+			if ms.HeapAlloc > 8<<30 {
+				os.Exit(3)
+			}
+		}
+	}()
 	in := bufio.NewReaderSize(os.Stdin, 1<<20)
 	out := bufio.NewWriter(os.Stdout)
 	for {
@@ -620,6 +634,13 @@ type childProc struct {
 	cmd    *exec.Cmd
 	stdin  io.WriteCloser
 	stdout *bufio.Reader
+}
+
+func caseDeadline(p progIn, dflt time.Duration) time.Duration {
+	if p.DeadlineMs > 0 {
+		return time.Duration(p.DeadlineMs) * time.Millisecond
+	}
+	return dflt
 }
 
 func startChild() *childProc {
@@ -716,7 +737,7 @@ func luaRun(args []string) int {
 					} else {
 						results[i] = r.b
 					}
-				case <-time.After(*deadline):
+				case <-time.After(caseDeadline(p, *deadline)):
 					ch.kill()
 					ch = nil
 					b, _ := json.Marshal(progOut{ID: p.ID, Emits: []interface{}{}, Outcome: []interface{}{"hang"}})
